@@ -45,6 +45,7 @@ where
   | [], _ => none
   | '"' :: rest, acc => some (String.ofList acc.reverse, rest)
   | '\\' :: 'n' :: rest, acc => strLit rest ('\n' :: acc)
+  | '\\' :: 'r' :: rest, acc => strLit rest ('\r' :: acc)
   | '\\' :: c :: rest, acc => strLit rest (c :: acc)
   | c :: rest, acc => strLit rest (c :: acc)
 
@@ -67,7 +68,7 @@ def parse (line : String) : Option Sexp :=
 private def escape (s : String) : String :=
   String.ofList (s.toList.flatMap fun c =>
     if c == '"' then ['\\', '"'] else if c == '\\' then ['\\', '\\']
-    else if c == '\n' then ['\\', 'n'] else [c])
+    else if c == '\n' then ['\\', 'n'] else if c == '\r' then ['\\', 'r'] else [c])
 
 partial def render : Sexp → String
   | atom s => s
